@@ -37,11 +37,11 @@ Inductive cb :=
 
 (* result of one SFTPHandle.read call made by _check_file (an oracle input) *)
 Inductive rd :=
-  | RBytes (n : Z)     (* bytes of length n (0 = end of file; may be short) *)
-  | RStr (n : Z)       (* a str of length n (not bytes) *)
-  | RCode (k : Z)      (* an int error code *)
-  | ROther             (* any other object *)
-  | RRaise.            (* read raised *)
+  | RdBytes (n : Z)     (* bytes of length n (0 = end of file; may be short) *)
+  | RdStr (n : Z)       (* a str of length n (not bytes) *)
+  | RdCode (k : Z)      (* an int error code *)
+  | RdOther             (* any other object *)
+  | RdRaise.            (* read raised *)
 
 (* the check-file arguments: does the algorithm list decode (else UnicodeDecodeError in get_list),
    does it name md5 or sha1, start, length, block size, what handle.stat() returns (CbAttr carries
@@ -137,10 +137,10 @@ Fixpoint cf_loop (id lim offset : Z) (reads : list rd) : out :=
   | [] => Done [(g_CMD_EXTENDED_REPLY, id, 0)]
   | r :: rest =>
       match r with
-      | RBytes n => if n <=? 0 then Done [(g_CMD_EXTENDED_REPLY, id, 0)] else cf_loop id lim (offset + n) rest
-      | RStr n => Done [status id n]
-      | RCode k => send_status id k
-      | ROther | RRaise => Exc []
+      | RdBytes n => if n <=? 0 then Done [(g_CMD_EXTENDED_REPLY, id, 0)] else cf_loop id lim (offset + n) rest
+      | RdStr n => Done [status id n]
+      | RdCode k => send_status id k
+      | RdOther | RdRaise => Exc []
       end
   end.
 
